@@ -167,7 +167,9 @@ pub fn gen_case<R: Rng>(rng: &mut R, real: bool) -> Case {
             _ => Script::Random { p: [0.05, 0.05, 0.8, 0.1], seed: rng.gen(), gap: 1e-3 },
         };
         let cfg = mc::rand_cfg(rng, 0., 20_000);
-        Case::Scripted(ScriptedCase { init, bounds, script, cfg, via_api: rng.gen_bool(0.3) })
+        let mut sc = ScriptedCase { init, bounds, script, cfg, via_api: rng.gen_bool(0.3) };
+        mc::maybe_start_outside(rng, &mut sc, 0.15);
+        Case::Scripted(sc)
     }
 }
 
